@@ -18,13 +18,25 @@ pub enum Kind {
 pub struct ProblemSpec {
     pub n: usize,
     pub p: Raw, // canonical; upper triangular or full symmetric
+    #[serde(with = "serde_vecf64")]
     pub q: Vec<f64>,
     pub a: Raw,
+    #[serde(with = "serde_vecf64")]
     pub b: Vec<f64>,
     pub cones: Vec<ConeSpec>,
     pub kind: Kind,
     /// planted strictly feasible point (x, s, z) for Kind::Feasible
-    pub planted: Option<(Vec<f64>, Vec<f64>, Vec<f64>)>,
+    pub planted: Option<Planted>,
+}
+
+#[derive(Clone, Debug, Serialize, Deserialize)]
+pub struct Planted {
+    #[serde(with = "serde_vecf64")]
+    pub x: Vec<f64>,
+    #[serde(with = "serde_vecf64")]
+    pub s: Vec<f64>,
+    #[serde(with = "serde_vecf64")]
+    pub z: Vec<f64>,
 }
 
 impl ProblemSpec {
@@ -110,6 +122,7 @@ pub fn dense_to_raw(a: &Mat, m: usize, n: usize, keep_zero: impl Fn(usize, usize
 #[derive(Clone, Debug, Serialize, Deserialize, PartialEq)]
 pub struct SettingsSpec {
     pub max_iter: u32,
+    #[serde(with = "serde_f64")]
     pub time_limit: f64,
     pub verbose: bool,
     pub max_step_fraction: f64,
@@ -579,7 +592,7 @@ pub fn gen_feasible_with(t: &mut Tape, cfg: &GenCfg, n: usize, cones: Vec<ConeSp
         b,
         cones,
         kind: Kind::Feasible,
-        planted: Some((xs, s, z)),
+        planted: Some(Planted { x: xs, s, z }),
     }
 }
 
@@ -712,13 +725,13 @@ pub fn badly_scale(t: &mut Tape, ps: &mut ProblemSpec, decades: f64) {
     for i in 0..m {
         ps.b[i] *= rs[i];
     }
-    if let Some((x, s, z)) = ps.planted.as_mut() {
+    if let Some(pl) = ps.planted.as_mut() {
         for j in 0..n {
-            x[j] /= cs[j];
+            pl.x[j] /= cs[j];
         }
         for i in 0..m {
-            s[i] *= rs[i];
-            z[i] /= rs[i];
+            pl.s[i] *= rs[i];
+            pl.z[i] /= rs[i];
         }
     }
 }
